@@ -244,12 +244,53 @@ def is_call_to(n, suffix):
     return isinstance(n, dict) and n.get("k") in ("Call", "MCall", "OpCall") and (n.get("fn") or "").endswith(suffix)
 
 
+def _pure(e):
+    """initialiser without side effects: literals, references, arithmetic, casts (no calls, no constructors with arguments)"""
+    if e is None:
+        return True
+    for x in walk(e):
+        if x.get("k") in ("Call", "MCall", "OpCall", "New", "Lambda", "Throw") or (x.get("k") == "Bin" and x.get("asg")) or (x.get("k") == "Un" and ("++" in (x.get("op") or "") or "--" in (x.get("op") or ""))):
+            return False
+        if x.get("k") == "Ctor" and [a for a in (x.get("a") or []) if a.get("k") != "DefArg"]:
+            return False
+    return True
+
+
 def stmt_list(body):
+    """The statements of a block, WITHOUT the ones that cannot matter to any rule: declarations of locals that nothing in the
+    block refers to and whose initialiser has no side effect, empty statements, and calls of the logging facade (OpmLog::*).
+    Rules that look at "the first statement" or at the exact sequence of a body are thereby insensitive to such additions."""
     if body is None:
         return []
-    if body.get("k") == "Block":
-        return body["c"]
-    return [body]
+    if body.get("k") != "Block":
+        return [body]
+    st = body["c"]
+    if not any(s.get("k") in ("Decl", "Null") or (s.get("k") == "Call" and (s.get("fn") or "").startswith("Opm::OpmLog::")) for s in st):
+        return st
+    out = []
+    for i, s in enumerate(st):
+        k = s.get("k")
+        if k == "Null":
+            continue
+        if k == "Call" and (s.get("fn") or "").startswith("Opm::OpmLog::") and all(_pure(a) for a in s.get("a") or []):
+            continue
+        if k == "Decl" and s.get("vars") and all(_pure(v.get("init")) and not v.get("ref") for v in s["vars"]):
+            names = {v["n"] for v in s["vars"]}
+            used = False
+            for t in st[i + 1:]:
+                for x in walk(t):
+                    if x.get("k") == "Ref" and x.get("n") in names:
+                        used = True
+                        break
+                    if x.get("k") == "Lambda" and any(c.get("n") in names for c in x.get("caps") or []):
+                        used = True
+                        break
+                if used:
+                    break
+            if not used:
+                continue
+        out.append(s)
+    return out
 
 
 # --------------------------------------------------------------------------------------
